@@ -24,6 +24,7 @@ import (
 	"encoding/hex"
 	"encoding/pem"
 	"errors"
+	"fmt"
 	"os"
 
 	"github.com/youmark/pkcs8"
@@ -46,6 +47,8 @@ const (
 )
 
 var ErrNoSuchKey = errors.New("no such key")
+
+var ErrMalformedEncryptedKey = errors.New("malformed encrypted key")
 
 type KeyStore interface {
 	GetKey(id string) (*Entry, error)
@@ -117,7 +120,7 @@ func createKeyStore(blocks []*pem.Block, password string) (keyStore, error) {
 		switch block.Type {
 		case pemBlockTypeEncryptedPrivateKey:
 			// PKCS#8 (PKCS#5 (v2.0) algorithms)
-			key, err = pkcs8.ParsePKCS8PrivateKey(block.Bytes, stringx.ToBytes(password))
+			key, err = parseEncryptedPrivateKey(block.Bytes, password)
 		case pemBlockTypePrivateKey:
 			// PKCS#8 - unencrypted
 			key, err = x509.ParsePKCS8PrivateKey(block.Bytes)
@@ -269,4 +272,17 @@ func createEntry(key any, keyID string) (*Entry, error) {
 		KeySize:    size,
 		PrivateKey: sigKey,
 	}, nil
+}
+
+func parseEncryptedPrivateKey(data []byte, password string) (key any, err error) {
+	// the decryption panics on entries, which are well-formed, but carry e.g. a cipher text, which
+	// is not a multiple of the block size, or an IV of wrong length. Such an entry must
+	// result in a rejected key store, also if it is loaded upon a change of the file
+	defer func() {
+		if rec := recover(); rec != nil {
+			err = fmt.Errorf("%w: %v", ErrMalformedEncryptedKey, rec)
+		}
+	}()
+
+	return pkcs8.ParsePKCS8PrivateKey(data, stringx.ToBytes(password))
 }
